@@ -47,6 +47,18 @@ def run(chk, ctx):
         lo = r.kn.lin_interval(d)[0]
         okk = lo is not None and lo >= 0
         holds = r.kn.lin_interval(ln)[0]
+        # what is returned is a frame: an object of one of the frame classes
+        # and at least the 8 octets of the shortest frame consumed (a
+        # "nothing yet" answer for a short buffer is a return, not the
+        # exception the caller waits on)
+        nlo = r.n if isinstance(r.n, int) else r.kn.lin_interval(r.n)[0]
+        if kind is None or nlo is None or nlo < 8:
+            chk.ob('C07.L', cons + ' is a frame', False,
+                   'returns (%s, %s, %s): not a frame of at least 8 octets '
+                   '- a strict prefix (the empty one included) must raise' %
+                   (T.show(r.n)[:40], T.show(r.ch)[:30],
+                    r.cls.short if r.cls is not None else 'no frame object'),
+                   site=site)
         chk.ob('C07.L', cons, okk,
                'returns n = %s; path facts give len(buffer) - n >= %s' %
                (T.show(r.n)[:80], lo),
